@@ -93,3 +93,38 @@ fn assembler_bounded_ordered_then_unordered() {
     }
     core::mem::forget(a);
 }
+
+fn insert_small(a: &mut Assembler) {
+    let off: u8 = vk::any();
+    let len: u8 = vk::any();
+    vk::assume(off < 4 && len >= 1 && len <= 4 && off + len <= 4);
+    let bytes = Bytes::copy_from_slice(&PATTERN[off as usize..(off + len) as usize]);
+    let _ = a.insert(off as u64, bytes, len as usize);
+}
+
+// @harness assembler_bounded_switch_no_duplicate props=C01 tier=thorough kind=bounded bound="4-byte stream, 2 inserts of symbolic (offset, 1<=len<=4) slices, one ordered read of symbolic max length, switch to unordered, 2 unordered reads" timeout=1500 fn="Assembler::{insert,read,ensure_ordering,defragment}" desc="no byte is delivered twice across the ordered->unordered switch and every delivered byte equals the byte written at its offset"
+#[cfg_attr(kani, kani::proof)]
+#[cfg_attr(kani, kani::unwind(8))]
+#[cfg_attr(verif_replay, test)]
+fn assembler_bounded_switch_no_duplicate() {
+    let mut a = Assembler::new();
+    let mut seen = Seen { mask: 0 };
+    insert_small(&mut a);
+    insert_small(&mut a);
+    let max: usize = vk::any();
+    vk::assume(max >= 1 && max <= 4);
+    if let Some(c) = a.read(max, true) {
+        assert!(c.offset == 0, "first ordered chunk must start the stream");
+        seen.deliver(&c);
+    }
+    a.ensure_ordering(false).unwrap();
+    let mut k = 0;
+    while k < 2 {
+        match a.read(4, false) {
+            Some(c) => seen.deliver(&c),
+            None => break,
+        }
+        k += 1;
+    }
+    core::mem::forget(a);
+}
